@@ -329,15 +329,19 @@ func (r *FnRun) callContractB(st *State, fr *frame, instr ssa.Instruction, f *ss
 	// ghost parameters: witnesses supplied by the caller's contract, else unconstrained
 	for _, gp := range fc.GhostParams {
 		var w *V
-		if fr.fc != nil {
-			for _, g := range fr.fc.Ghosts {
+		wfc := fr.fc
+		if wfc == nil {
+			wfc = r.fc // inlined closure: witnesses come from the enclosing function's contract
+		}
+		if wfc != nil {
+			for _, g := range wfc.Ghosts {
 				if g.Anchor == "witness" && g.Callee == callee && g.N == ord {
 					if e, ok := g.With[gp.Name]; ok {
 						ctx := &EvalCtx{run: r, st: st, old: r.entry, vars: map[string]*V{}, oldVars: st.params, fn: fr.fn, pkg: fr.fn.Pkg.Pkg, cs: fr.cs, what: "ghost witness"}
 						for k, v := range st.ghostParams {
 							ctx.vars[k] = v
 						}
-						v, err := safeVal(ctx, e, fr.fc.File, g.Line)
+						v, err := safeVal(ctx, e, wfc.File, g.Line)
 						if err != nil {
 							r.errs = append(r.errs, err.Error())
 						} else {
